@@ -100,7 +100,15 @@ fn build_request(op: &Value) -> Vec<u8> {
             req.extend_from_slice(b"\r\n");
         }
     }
-    if let Some(sz) = op["chunked"].as_u64() {
+    if let Some(raw) = op["raw_tail_hex"].as_str() {
+        // a body section sent verbatim (broken chunk framing, fewer bytes than announced)
+        if op["te_chunked"].as_bool().unwrap_or(false) {
+            req.extend_from_slice(b"Transfer-Encoding: chunked\r\n\r\n");
+        } else {
+            req.extend_from_slice(format!("Content-Length: {}\r\n\r\n", op["content_length"].as_u64().unwrap_or(0)).as_bytes());
+        }
+        req.extend_from_slice(&hex::decode(raw).unwrap_or_default());
+    } else if let Some(sz) = op["chunked"].as_u64() {
         req.extend_from_slice(b"Transfer-Encoding: chunked\r\n\r\n");
         for c in body.chunks(sz.max(1) as usize) {
             req.extend_from_slice(format!("{:x}\r\n", c.len()).as_bytes());
@@ -150,6 +158,9 @@ pub async fn request(sock: &Path, op: &Value) -> Value {
     };
     if stream.write_all(&req).await.is_err() {
         return json!({"conn": "write-failed"});
+    }
+    if op["half_close"].as_bool().unwrap_or(false) {
+        let _ = stream.shutdown().await;      // the client stops sending: the announced body never completes
     }
     let mut buf: Vec<u8> = Vec::new();
     let mut tmp = [0u8; 16384];
